@@ -54,7 +54,7 @@ def correspondence(ctx, model_ok, tmp):
     repo.basic_dimensions(b, detectors=(1, 2, 3))
     reg = b.registry
     req, impl = [], []
-    n_hist = 30 if ctx.quick() else 500
+    n_hist = 20 if ctx.quick() else 500
     CT = {"R": CollectionType.RUN, "T": CollectionType.TAGGED, "C": CollectionType.CHAINED}
 
     def viol(what, key, replay):
@@ -75,7 +75,25 @@ def correspondence(ctx, model_ok, tmp):
         defs = {
             0: lambda t: DatasetType(tname(t), {"instrument", "detector"}, "StructuredDataDict", universe=b.dimensions),
             1: lambda t: DatasetType(tname(t), {"instrument", "detector"}, "StructuredDataList", universe=b.dimensions),
+            # a dataset type without dimensions: its tag rows have no data-ID columns at all
+            2: lambda t: DatasetType(tname(t), set(), "StructuredDataDict", universe=b.dimensions),
         }
+
+        def data_id(t, k):
+            return {} if o_types.get(t) == 2 else {"instrument": "I", "detector": k}
+
+        def keys_for(t):
+            return [0] if o_types.get(t) == 2 else [1, 2, 3]
+
+        def pick_coll(kind, p=0.7):
+            """Mostly an existing collection of the kind the operation needs, sometimes any number."""
+            good = [c for c, k in o_colls.items() if k == kind]
+            return rng.choice(good) if good and rng.random() < p else rng.randrange(NC)
+
+        def clashing(c):
+            """Datasets that share dataset type and data ID with a current member of TAGGED collection c."""
+            cur = {(o_ds[i][0], o_ds[i][1]) for i in o_tag.get(c, set()) if i in o_ds}
+            return [i for i in sorted(refs) if i in o_ds and (o_ds[i][0], o_ds[i][1]) in cur and i not in o_tag.get(c, set())]
         req.append("reg new")
         impl.append("ok")
         # oracle state
@@ -84,7 +102,7 @@ def correspondence(ctx, model_ok, tmp):
         next_id = 1
         ops = []
         flags = set()
-        NC, NT = 7, 2
+        NC, NT = 7, 3
 
         def o_members(c, t):
             if o_colls.get(c) == "R":
@@ -93,25 +111,38 @@ def correspondence(ctx, model_ok, tmp):
                 return sorted(i for i in o_tag.get(c, set()) if o_ds[i][0] == t)
             return []
 
-        for step in range(rng.randint(15, 45)):
+        # four histories in five start from a furnished registry (runs, TAGGED collections, a chain, dataset types),
+        # so that most later operations are accepted; the others start from nothing
+        forced = []
+        if rng.random() < 0.8:
+            forced = [("regcoll", (0, "R")), ("regcoll", (1, "R")), ("regcoll", (2, "T")), ("regcoll", (3, "T")), ("regcoll", (4, "C")),
+                      ("regtype", (0, 0)), ("regtype", (1, rng.choice([0, 1, 2]))), ("regtype", (2, 2))]
+            rng.shuffle(forced)
+        n_steps = rng.randint(15, 45) + len(forced)
+        for step in range(n_steps):
+            c = None
             # pick the operation kind by weight among those that make sense now, then map it onto the thresholds below
-            kinds = [("regcoll", 0.07, 10), ("regtype", 0.18, 5), ("insert", 0.3, 22)]
+            kinds = [("regcoll", 0.07, 5), ("regtype", 0.18, 3), ("insert", 0.3, 16)]
             if refs:
-                kinds += [("import", 0.47, 6), ("assoc", 0.6, 18), ("disassoc", 0.7, 7), ("rmds", 0.8, 7)]
-            kinds += [("rmcoll", 0.87, 4), ("chain", 0.93, 5)]
+                kinds += [("import", 0.47, 6), ("assoc", 0.6, 20), ("disassoc", 0.7, 12), ("rmds", 0.8, 6)]
+            kinds += [("rmcoll", 0.87, 4), ("chain", 0.93, 4)]
             if o_stored:
                 kinds.append(("unstore", 0.97, 3))
             if len(o_colls) < 4:
-                kinds.append(("regcoll", 0.07, 25))
+                kinds.append(("regcoll", 0.07, 20))
             tot = sum(w for _, _, w in kinds)
             pick = rng.random() * tot
             for _, r, w in kinds:
                 pick -= w
                 if pick <= 0:
                     break
+            params = None
+            if forced:
+                kind, params = forced.pop(0)
+                r = 0.07 if kind == "regcoll" else 0.18
             want = None  # oracle's expected reply class
             if r < 0.14:
-                c, k = rng.randrange(NC), rng.choice("RRTTC")
+                c, k = params or (rng.randrange(NC), rng.choice("RRTTC"))
                 line = f"reg regcoll {c} {k}"
                 try:
                     out = "True" if reg.registerCollection(cname(c), CT[k]) else "False"
@@ -123,7 +154,7 @@ def correspondence(ctx, model_ok, tmp):
                     if k == "C":
                         o_chain[c] = []
             elif r < 0.22:
-                t, d = rng.randrange(NT), rng.choice([0, 0, 0, 1])
+                t, d = params or (rng.randrange(NT), rng.choice([0, 0, 0, 0, 1, 2, 2]))
                 line = f"reg regtype {t} {d}"
                 try:
                     out = "True" if reg.registerDatasetType(defs[d](t)) else "False"
@@ -132,7 +163,8 @@ def correspondence(ctx, model_ok, tmp):
                 want = ("False" if o_types[t] == d else "err ConflictingDefinitionError") if t in o_types else "True"
                 o_types.setdefault(t, d)
             elif r < 0.45:
-                t, k, c = rng.randrange(NT), rng.choice([1, 2, 3]), rng.randrange(NC)
+                t, c = rng.randrange(NT), pick_coll("R", 0.8)
+                k = rng.choice(keys_for(t))
                 use_put = rng.random() < 0.3
                 line = f"reg insert {next_id} {t} {k} {c}"
                 if t not in o_types:
@@ -146,17 +178,17 @@ def correspondence(ctx, model_ok, tmp):
                 else:
                     want = "ok"
                 try:
-                    if use_put and o_types.get(t) == 0:
-                        ref = b.put({"v": step}, tname(t), instrument="I", detector=k, run=cname(c))
+                    if use_put and o_types.get(t) in (0, 2):
+                        ref = b.put({"v": step}, tname(t), data_id(t, k), run=cname(c))
                     else:
-                        (ref,) = reg.insertDatasets(tname(t), [{"instrument": "I", "detector": k}], run=cname(c))
+                        (ref,) = reg.insertDatasets(tname(t), [data_id(t, k)], run=cname(c))
                     out = "ok"
                 except Exception as e:
                     out = classify(e)
                 if out == "ok":
                     refs[next_id] = ref
                     o_ds[next_id] = (t, k, c)
-                    if use_put and o_types.get(t) == 0:
+                    if use_put and o_types.get(t) in (0, 2):
                         req.append(line), impl.append(out)
                         line, out = f"reg store {next_id}", "ok"
                         o_stored.add(next_id)
@@ -170,7 +202,7 @@ def correspondence(ctx, model_ok, tmp):
                     continue
                 mode = rng.choice(["same", "other-run", "other-key"])
                 c2 = c if mode != "other-run" else rng.choice([x for x in range(NC)])
-                k2 = k if mode != "other-key" else rng.choice([1, 2, 3])
+                k2 = k if mode != "other-key" else rng.choice(keys_for(t))
                 line = f"reg import {i} {t} {k2} {c2}"
                 if c2 not in o_colls:
                     want = "err MissingCollectionError"
@@ -181,14 +213,19 @@ def correspondence(ctx, model_ok, tmp):
                 else:
                     want = "err ConflictingDefinitionError"
                 try:
-                    new = DatasetRef(ref.datasetType, {"instrument": "I", "detector": k2}, run=cname(c2), id=ref.id)
+                    new = DatasetRef(ref.datasetType, data_id(t, k2), run=cname(c2), id=ref.id)
                     reg._importDatasets([new])
                     out = "ok"
                 except Exception as e:
                     out = classify(e)
             elif r < 0.68 and refs:
-                c = rng.randrange(NC)
+                c = pick_coll("T")
                 ids = rng.sample(sorted(refs), min(len(refs), rng.choice([0, 1, 1, 2, 3])))
+                if clashing(c) and rng.random() < 0.4:
+                    # a dataset whose type + data ID is already taken in c, alone or together with harmless ones
+                    ids = rng.sample(ids, min(len(ids), rng.choice([0, 1, 2]))) + [rng.choice(clashing(c))]
+                    ids = list(dict.fromkeys(ids))
+                    rng.shuffle(ids)
                 line = f"reg assoc {c} " + (",".join(map(str, ids)) or "-")
                 if c not in o_colls:
                     want = "err MissingCollectionError"
@@ -217,8 +254,11 @@ def correspondence(ctx, model_ok, tmp):
                 except Exception as e:
                     out = classify(e)
             elif r < 0.76 and refs:
-                c = rng.randrange(NC)
+                c = pick_coll("T")
                 ids = rng.sample(sorted(refs), min(len(refs), rng.choice([1, 2])))
+                if clashing(c) and rng.random() < 0.5:
+                    # a non-member that shares dataset type and data ID with a member: must be ignored
+                    ids = [rng.choice(clashing(c))]
                 line = f"reg disassoc {c} " + ",".join(map(str, ids))
                 if c not in o_colls:
                     want = "err MissingCollectionError"
@@ -315,10 +355,17 @@ def correspondence(ctx, model_ok, tmp):
                     conflict_expected = "Conflicting" in want or "Orphaned" in want
                     viol(f"history {ops[-6:]}: `{line[4:]}` -> {out}, documented outcome {want}",
                          f"reply:{ops}", {"kind": "history", "ops": ops, "failing_step": len(ops) - 1, "got": out, "want": want})
-            # ---- observe: memberships of every collection through both query systems
+            # ---- observe: memberships through both query systems — of every collection on every third step and at the
+            # end of the history, otherwise of the collection the operation named plus a random quarter of the others
+            touched = c
+            full_probe = (step % 3 == 2) or step == n_steps - 1 or not ctx.quick()
             for c in range(NC):
                 for t in range(NT):
                     if t not in o_types:
+                        continue
+                    if c not in o_colls and rng.random() < 0.85:
+                        continue  # an unknown collection is only probed now and then
+                    if not (full_probe or c == touched or rng.random() < 0.25):
                         continue
                     obs = []
                     for api in ("registry", "butler"):
@@ -331,7 +378,7 @@ def correspondence(ctx, model_ok, tmp):
                             byid = {rf.id: i for i, rf in refs.items()}
                             got = sorted(byid[x.id] for x in rows)
                             bad_identity = [byid[x.id] for x in rows if byid[x.id] in o_ds and
-                                            (x.run != cname(o_ds[byid[x.id]][2]) or x.dataId["detector"] != o_ds[byid[x.id]][1])]
+                                            (x.run != cname(o_ds[byid[x.id]][2]) or (x.dataId.get("detector") or 0) != o_ds[byid[x.id]][1])]
                             obs.append((",".join(map(str, got)) or "-", bad_identity))
                         except MissingCollectionError:
                             obs.append(("err MissingCollectionError", []))
